@@ -9,7 +9,7 @@ CASES_MODULE = "Cases.C19"
 HEADER = "From OCV Require Import Syscall.SockOpt Syscall.SockOptOracle."
 AREA = "sockopt"
 ISOLATE = True          # process-global caches; panics inside extern "C" functions abort
-TIMEOUT_MS = 4000
+TIMEOUT_MS = 20000
 LEVEL = "proof"
 SHRINK_KEY = "ops"
 RULE = ("histories of Socket | SetOpt fd which tv | Limit fd dir | KGet fd which | Close fd (3-14 ops, up to 4 "
